@@ -419,6 +419,6 @@ func runC15(ctx *core.Ctx) {
 		add(c15Args{Init: st, Ops: ops})
 	}
 	ctx.Wait()
-	ctx.Note("c15hist: %d steps compared exactly with the model and decided against the spec; %d select steps look like the pre-fix order-dependent loop (must be 0); %d steps returned 'no such service'; spec skipped on %d steps whose receiver is not a partition (malformed stream)",
+	ctx.Note("c15hist: %d steps compared exactly with the model and decided against the spec; %d select steps look like the pre-fix order-dependent loop (must be 0); %d steps returned 'no such service'; spec skipped on %d steps whose receiver is not a partition or has a Name that differs from its key (malformed stream)",
 		c15Steps.Load(), c15ViaOrder.Load(), c15ErrSteps.Load(), c15SpecSkipped.Load())
 }
